@@ -23,7 +23,7 @@ CHECKS = {
          "reference BFS/Dijkstra in the harness; origin/destination edges drawn from the permitted set", "3.5"),
 
  "C06": (True, "history + reference-model monitor: batch responses as a multiset vs every query run alone, across parallelism/order/seeded delay injection at hook events; distinct completion orders recorded",
-         "Builds applications from generated TOML, runs every query alone (parallelism 1) and then the same batch under random parallelism overrides, permutations and seeded yields/sleeps injected at QueryStart/QueryEnd/BeforeWrite hook events; the multiset of (qid, error text, route, cost, final state) must equal the alone results, counts must equal the expansion product, run() must return Ok and load balancing must partition the queries. An energy slice (30 % of the speed-table cases) shares a prediction cache between the queries; its reference is the same configuration without the cache.",
+         "Builds applications from generated TOML, runs every query alone (parallelism 1) and then the same batch under random parallelism overrides, permutations and seeded yields/sleeps injected at QueryStart/QueryEnd/BeforeWrite hook events; the multiset of (qid, error text, route, cost, final state) must equal the alone results, counts must equal the expansion product, run() must return Ok and load balancing must partition the queries. An energy slice (30 % of the speed-table cases) shares a prediction cache between the queries; its reference is the same configuration without the cache. With a numeric load balancer, queries are run once more with another well-formed weight estimate: the answer must not depend on it.",
          "reference = same application (cache-enabled cases: the same configuration without the cache), query alone; schedule reach = native stress + delay injection (observed interleavings reported); thorough adds ThreadSanitizer and Miri layers", "3.6"),
  "C07": (True, "runtime oracle: real CostModel / EdgeTraversal on sampled configurations and state pairs vs independent closed formula; live relaxations watched through hooks in the search monitors",
          "Calls the real cost model (traversal/access/estimate) and EdgeTraversal::forward/reverse_traversal on sampled weight/rate/surcharge/aggregation setups and finite state pairs incl. zero and negative deltas; positivity, the sum formula, linearity in the weights and zero-weight neutrality are asserted per call.",
@@ -37,7 +37,7 @@ CHECKS = {
          "trusts the SI factors written in the harness and f64 arithmetic; energy units only get identity/linearity/round-trip", "3.9"),
 
  "C10": (True, "runtime monitor over hook events (LoopTop/Pop/SearchEnd): limit sweeps per query vs unlimited reference run; one-sided timing checks for runtime limits",
-         "For sampled queries the unlimited run is compared with complete sweeps of the iteration and solution-size limits, random combined limits and runtime budgets (zero, and expiring mid-search with a sleeping traversal model): expansion counts, tree sizes, termination messages, identity of results, monotonicity and no work after termination are asserted from hook events. Yen's algorithm is driven under every limit as well, and an application slice takes the limits from the [termination] section of the TOML and the verdicts from the responses (unlimited route or a 'terminated' error naming the limit).",
+         "For sampled queries the unlimited run is compared with complete sweeps of the iteration and solution-size limits, random combined limits and runtime budgets (zero, and expiring mid-search with a sleeping traversal model): expansion counts, tree sizes, termination messages, identity of results, monotonicity and no work after termination are asserted from hook events. Yen's algorithm is driven under every limit as well, and an application slice takes the limits from the [termination] section of the TOML and the verdicts from the responses (unlimited route or a 'terminated' error naming the limit). A configured-limit slice builds random [termination] sections (runtime budgets up to days) through the real builder and probes the model with back-dated start instants against the generator's own reading of the section.",
          "expansion = popped vertex; runtime checks one-sided (250 ms slack) so load cannot alarm", "3.10"),
  "C11": (True, "model-based runtime monitor: random operation histories on the real container / StateModel vs insertion-ordered reference, full read API after every step",
          "Drives the real CompactOrderedHashMap and StateModel through sampled construction/extension/insert/overwrite histories and named get/set/add sequences; an insertion-ordered Vec reference and slot-isolation assertions decide after every step.",
@@ -70,7 +70,7 @@ CHECKS = {
 
 
  "C19": (True, "offline checker over the output file (history): file parsed by serde_json / csv vs the same batch run without a sink, across parallelism, flush rates, appending runs and delay injection; writer switches recorded from SinkLocked events",
-         "Runs batches through applications with NDJSON or CSV file sinks (random mappings, sorted/unsorted headers, flush rates, both persistence policies, combined sinks, per-run policies, 1..3 appending runs, large records) under shuffled order, parallelism 1..32 and seeded delays; the parsed file must be a bijection with the responses that reach the sink, cells must equal the mapping applied to the response, and the returned responses must keep every field of the sink-less run.",
+         "Runs batches through applications with NDJSON or CSV file sinks (random mappings, sorted/unsorted headers, flush rates, both persistence policies, combined sinks, per-run policies, 1..3 appending runs, a further appending run by a second application through the command-line runner on JSON-array or chunked newline-delimited query files, large records) under shuffled order, parallelism 1..32 and seeded delays; the parsed file must be a bijection with the responses that reach the sink, cells must equal the mapping applied to the response, and the returned responses must keep every field of the sink-less run.",
          "reference = same batch without sink; numbers compared at 1e-12 (text round trip); lock discipline is evidence only; thorough adds ThreadSanitizer and Miri layers", "3.19"),
  "C20": (True, "runtime oracle: real search results rendered by the real TraversalPlugin (5 formats x route/tree), Summary and UUID plugins and CompassApp::run; WKT/WKB decoded and compared with the generator's geometry table",
          "Real routes and trees are rendered in all five formats by the real output plugins and by the application; each rendering is decoded and compared with the SearchAppResult it was given and with the generator's geometry/identifier tables, including truncated geometry tables that must produce errors.",
